@@ -19,8 +19,10 @@ use std::{
     time::Duration,
 };
 
+mod ext;
 mod gen;
 mod run;
+mod tasks;
 
 pub const ABORT_MARK: u64 = 999_999_998;
 pub const TIMEOUT_MARK: u64 = 999_999_997;
@@ -108,8 +110,7 @@ struct Worker {
 }
 
 impl Worker {
-    fn spawn() -> Worker {
-        let exe = std::env::current_exe().expect("current_exe");
+    fn spawn(exe: &Path) -> Worker {
         let mut child = Command::new(exe)
             .args(["c19", "--worker", "1"])
             .stdin(Stdio::piped())
@@ -138,15 +139,86 @@ impl Worker {
 
 struct Pool {
     w: Option<Worker>,
+    /// worker built with the optional `quic` and `webrtc` features (TLS certificates, WebRTC codec)
+    wx: Option<Worker>,
+    /// None = not tried yet, Some(None) = could not be built
+    xbin: Option<Option<std::path::PathBuf>>,
     watchdog: Duration,
 }
 
-impl Pool {
-    fn exec(&mut self, proto: &[u64]) -> (Vec<u64>, Vec<u64>) {
-        if self.w.is_none() {
-            self.w = Some(Worker::spawn());
+/// kinds that only the feature worker can run
+fn needs_features(proto: &[u64]) -> bool {
+    matches!(proto.first(), Some(18) | Some(19) | Some(9918))
+}
+
+/// The feature worker is a generated one-file crate (source: src/c19/xworker.rs) so that the other
+/// properties' harness modules need not compile under the extra litep2p features.
+fn build_feature_worker() -> Option<std::path::PathBuf> {
+    let dir = Path::new(env!("CARGO_MANIFEST_DIR"));
+    let manifest = std::fs::read_to_string(dir.join("Cargo.toml")).ok()?;
+    // the litep2p checkout the harness itself is built against
+    let dep = manifest.lines().find(|l| l.trim_start().starts_with("litep2p"))?;
+    let start = dep.find("path = \"")? + 8;
+    let repo = &dep[start..start + dep[start..].find('"')?];
+    let root = dir.join("target-c19x");
+    let krate = root.join("crate");
+    std::fs::create_dir_all(krate.join("src")).ok()?;
+    let toml = format!(
+        "[package]\nname = \"c19x\"\nversion = \"0.1.0\"\nedition = \"2021\"\n\n[workspace]\n\n[dependencies]\n\
+         litep2p = {{ path = \"{repo}\", features = [\"verif\", \"quic\", \"webrtc\"] }}\nbytes = \"1\"\n\n\
+         [profile.dev]\nopt-level = 1\ndebug = 0\ndebug-assertions = true\noverflow-checks = true\n"
+    );
+    let write_if_changed = |p: &Path, text: &str| {
+        if std::fs::read_to_string(p).map(|old| old != text).unwrap_or(true) {
+            let _ = std::fs::write(p, text);
         }
-        let w = self.w.as_mut().unwrap();
+    };
+    write_if_changed(&krate.join("Cargo.toml"), &toml);
+    write_if_changed(&krate.join("src").join("main.rs"), &std::fs::read_to_string(dir.join("src/c19/xworker.rs")).ok()?);
+    if !krate.join("Cargo.lock").exists() {
+        let _ = std::fs::copy(dir.join("Cargo.lock"), krate.join("Cargo.lock"));
+    }
+    let target = root.join("target");
+    let status = Command::new("cargo")
+        .args(["build", "--offline"])
+        .current_dir(&krate)
+        .env("CARGO_TARGET_DIR", &target)
+        .env("CARGO_NET_OFFLINE", "true")
+        .stdout(Stdio::null())
+        .stderr(Stdio::null())
+        .status()
+        .ok()?;
+    let bin = target.join("debug").join("c19x");
+    (status.success() && bin.exists()).then_some(bin)
+}
+
+impl Pool {
+    fn feature_worker_available(&mut self) -> bool {
+        if self.xbin.is_none() {
+            let b = build_feature_worker();
+            if b.is_none() {
+                eprintln!("c19: the feature worker (cargo features quic,webrtc) could not be built: kinds 18/19 are skipped");
+            }
+            self.xbin = Some(b);
+        }
+        matches!(self.xbin, Some(Some(_)))
+    }
+
+    fn exec(&mut self, proto: &[u64]) -> (Vec<u64>, Vec<u64>) {
+        let featured = needs_features(proto);
+        if featured && !self.feature_worker_available() {
+            return (run::proto_as_case(proto), vec![0]);
+        }
+        let slot = if featured { &mut self.wx } else { &mut self.w };
+        if slot.is_none() {
+            let exe = if featured {
+                self.xbin.clone().flatten().unwrap()
+            } else {
+                std::env::current_exe().expect("current_exe")
+            };
+            *slot = Some(Worker::spawn(&exe));
+        }
+        let w = slot.as_mut().unwrap();
         let sent = writeln!(w.stdin, "{}", line(proto)).and_then(|_| w.stdin.flush());
         let answer = if sent.is_ok() { w.rx.recv_timeout(self.watchdog) } else { Err(std::sync::mpsc::RecvTimeoutError::Disconnected) };
         match answer {
@@ -161,7 +233,8 @@ impl Pool {
                     std::sync::mpsc::RecvTimeoutError::Timeout => TIMEOUT_MARK,
                     std::sync::mpsc::RecvTimeoutError::Disconnected => ABORT_MARK,
                 };
-                if let Some(mut w) = self.w.take() {
+                let slot = if featured { &mut self.wx } else { &mut self.w };
+                if let Some(mut w) = slot.take() {
                     let _ = w.child.kill();
                     let _ = w.child.wait();
                 }
@@ -180,7 +253,7 @@ pub fn main(args: &Args) {
     let ncases = args.u64("cases", 100);
     let thorough = args.str("tier") == Some("thorough");
     let mut out = Outputs::open(args);
-    let mut pool = Pool { w: None, watchdog: Duration::from_secs(if thorough { 20 } else { 10 }) };
+    let mut pool = Pool { w: None, wx: None, xbin: None, watchdog: Duration::from_secs(if thorough { 20 } else { 10 }) };
 
     let mut stored: Vec<Vec<u64>> = Vec::new();
     if let Some(r) = args.str("replay") {
@@ -200,10 +273,23 @@ pub fn main(args: &Args) {
         let (c, t) = pool.exec(&proto);
         out.emit(&c, &t);
     }
+    // TLS certificates and the WebRTC codec need the feature worker: thorough tier (or C19_FEATURES=1)
+    let mut tls_seed: Option<Vec<u8>> = None;
+    if (thorough || std::env::var_os("C19_FEATURES").is_some()) && pool.feature_worker_available() {
+        let (_, t) = pool.exec(&[9918]);
+        if t.len() > 1 && t[0] as usize == t.len() - 1 {
+            tls_seed = Some(t[1..].iter().map(|x| *x as u8).collect());
+        }
+        for proto in gen::feature_systematic(tls_seed.as_deref()) {
+            let (c, t) = pool.exec(&proto);
+            out.emit(&c, &t);
+        }
+    }
+    let featured = pool.xbin.clone().flatten().is_some() && (thorough || std::env::var_os("C19_FEATURES").is_some());
     let mut rng = Rng::new(seed);
     for _ in 0..ncases {
         let mut r = rng.fork();
-        let proto = gen::random_case(&mut r);
+        let proto = if featured && r.chance(4) { gen::feature_random(&mut r, tls_seed.as_deref()) } else { gen::random_case(&mut r) };
         let (c, t) = pool.exec(&proto);
         out.emit(&c, &t);
     }
